@@ -85,8 +85,12 @@ def m_open(eng, st, args, kwargs, node):
     mode = mode.t.as_string()
     outs = []
     s_err = st.fork()
-    # open fails exactly when the path is a directory (wb) / is not a readable file (rb); spurious IO errors are outside the model
+    # open fails exactly when the path is a directory or its parent directory does not exist (wb) / is not a readable file (rb);
+    # spurious IO errors are outside the model
     if mode == 'wb':
+        s_nodir = st.fork()
+        s_nodir.assume(z3.Not(z3.Select(st.ghost['dirs'].t, DIRNAME(path.t))))      # no parent directory: nothing is created
+        outs.append(eng.exc(s_nodir, 'FileNotFoundError', node))
         s_err.assume(z3.Select(st.ghost['dirs'].t, path.t))
         s_err.assume(z3.Not(z3.Select(st.ghost['os_ex'].t, path.t)))      # a path is not both a directory and a file
         outs.append(eng.exc(s_err, 'IsADirectoryError', node))
@@ -100,6 +104,7 @@ def m_open(eng, st, args, kwargs, node):
     if mode == 'wb':
         isdir = z3.Select(st.ghost['dirs'].t, path.t)
         st.assume(z3.Not(isdir))                            # opening a directory for writing fails (the IsADirectoryError outcome)
+        st.assume(z3.Select(st.ghost['dirs'].t, DIRNAME(path.t)))      # the parent directory exists (else: the FileNotFoundError outcome)
         st.ghost['os'] = st.ghost['os'].store(path, "")
         st.ghost['os_ex'] = st.ghost['os_ex'].store(path, True)
         st.ghost['fs_ops'] = st.ghost['fs_ops'] + 1
